@@ -1781,6 +1781,17 @@ class Evaluator:
         if name == "isinstance" and len(args) == 2:
             a, k = args
             kn = k.name if isinstance(k, Ext) else None
+            # constants and strings-with-holes have a known builtin type
+            simple = {"str": str, "int": int, "float": float, "bool": bool, "bytes": bytes}
+            if kn in simple:
+                if isinstance(a, Const) and a.v is not None:
+                    return Const(isinstance(a.v, simple[kn]))
+                if isinstance(a, Const) and a.v is None:
+                    return FALSE
+                if isinstance(a, (Template, StrSym)):
+                    return Const(kn == "str")
+                if isinstance(a, (Seq, DictV, Closure, ClassRef)):
+                    return FALSE
             if kn in ("dict", "list", "tuple"):
                 if isinstance(a, DictV):
                     return Const(kn == "dict")
@@ -2309,22 +2320,50 @@ class Evaluator:
             return None
         items = self.iter_items(it)
         if items is not None and len(items) <= 64:
+            broke = None  # condition under which an earlier pass left the loop through `break`
             for x in items:
-                self.bind(s.target, x, st)
-                r = self.block(s.body, st, [])
+                if broke is None:
+                    self.bind(s.target, x, st)
+                    r = self.block(s.body, st, [])
+                else:
+                    # the pass runs only if no earlier pass broke out: evaluate it on a fork and gate the merge
+                    s_skip, s_run = st.fork(), st.fork()
+                    with self.assuming(broke, False):
+                        self.bind(s.target, x, s_run)
+                        r = self.block(s.body, s_run, [])
+                    self.merge(st, broke, s_skip, s_run)
                 if r is not None:
                     if r.value is CONTINUE:
                         continue
                     if r.value is BREAK:
-                        break
+                        if broke is None:
+                            break
+                        continue  # every path has left the loop by now
                     if _only_loop_exits(r.value):
                         # some paths continue, none returns: state already merged
                         if _has_break(r.value):
                             st.events.append(("break-maybe", s))
+                            bc = self._break_cond(r.value)
+                            if isinstance(bc, Const):
+                                if bc.v and broke is None:
+                                    break
+                            else:
+                                broke = bc if broke is None else self._bool_join(False, [broke, bc])
                         continue
                     return r
             return None
         return self.generic_loop(s, st, it)
+
+    def _break_cond(self, v):
+        """Condition under which the value of a loop body's exit is BREAK."""
+        if v is BREAK:
+            return TRUE
+        if isinstance(v, Phi):
+            a, b = self._break_cond(v.a), self._break_cond(v.b)
+            ta = self._bool_join(True, [v.cond, a])
+            tb = self._bool_join(True, [cnot(v.cond), b])
+            return self._bool_join(False, [ta, tb])
+        return FALSE
 
     def generic_loop(self, s, st, it):
         el = self.elem_of(it) if it is not None else None
